@@ -7,7 +7,10 @@ package main
 import (
 	"crypto/sha256"
 	"encoding/binary"
+	"encoding/hex"
 	"fmt"
+	"reflect"
+	"runtime"
 	"sort"
 	"strconv"
 	"strings"
@@ -19,6 +22,7 @@ import (
 
 	"github.com/iotaledger/hive.go/ierrors"
 	"github.com/iotaledger/hive.go/kvstore"
+	"github.com/iotaledger/hive.go/kvstore/flushkv"
 	"github.com/iotaledger/hive.go/kvstore/mapdb"
 )
 
@@ -31,6 +35,98 @@ type crashStore struct {
 	calls   int
 	failAt  int  // >0: the failAt-th store call of the current operation returns errInjected (and is not executed)
 	slowSet atomic.Bool // widen the window around store writes (concurrent scenarios)
+	trace   []byte // store calls of the current sequential operation: G/S returned, g/s failed with the injected error
+	tracing bool
+	wrapNF  bool // a missing key is reported by an error that only wraps ErrKeyNotFound
+	closeAt int  // >=0: the database below the wrappers is closed once closeAt store calls of the current operation have completed
+	dsk     *disk
+	onAck   func(k, v []byte)        // a Set that answered nil: the value must be in the database
+	onRead  func(k, v []byte, e error) // a Get that answered without an I/O error: the answer must be what the database holds
+}
+
+// disk: the database below every wrapper. Its content survives Close (it can be opened again: a restart of the process that
+// owns an on-disk database); while it is closed every access answers kvstore.ErrStoreClosed, as the stores of the module do.
+type disk struct {
+	kvstore.KVStore
+	closed  atomic.Bool
+	refused atomic.Int64 // accesses answered with ErrStoreClosed
+}
+
+func (d *disk) refuse() bool {
+	if d.closed.Load() {
+		d.refused.Add(1)
+
+		return true
+	}
+
+	return false
+}
+
+func (d *disk) Get(k kvstore.Key) (kvstore.Value, error) {
+	if d.refuse() {
+		return nil, kvstore.ErrStoreClosed
+	}
+
+	return d.KVStore.Get(k)
+}
+
+func (d *disk) Set(k kvstore.Key, v kvstore.Value) error {
+	if d.refuse() {
+		return kvstore.ErrStoreClosed
+	}
+
+	return d.KVStore.Set(k, v)
+}
+
+func (d *disk) Has(k kvstore.Key) (bool, error) {
+	if d.refuse() {
+		return false, kvstore.ErrStoreClosed
+	}
+
+	return d.KVStore.Has(k)
+}
+
+func (d *disk) Delete(k kvstore.Key) error {
+	if d.refuse() {
+		return kvstore.ErrStoreClosed
+	}
+
+	return d.KVStore.Delete(k)
+}
+
+func (d *disk) Flush() error {
+	if d.refuse() {
+		return kvstore.ErrStoreClosed
+	}
+
+	return d.KVStore.Flush()
+}
+
+func (d *disk) Batched() (kvstore.BatchedMutations, error) {
+	if d.refuse() {
+		return nil, kvstore.ErrStoreClosed
+	}
+
+	return d.KVStore.Batched()
+}
+
+func (d *disk) Close() error {
+	d.closed.Store(true)
+
+	return nil
+}
+
+func (c *crashStore) maybeClose() {
+	if c.closeAt >= 0 && c.calls == c.closeAt && c.dsk != nil {
+		c.closeAt = -1
+		c.dsk.closed.Store(true)
+	}
+}
+
+func (c *crashStore) note(b byte) {
+	if c.tracing {
+		c.trace = append(c.trace, b)
+	}
 }
 
 var errInjected = ierrors.New("injected store error")
@@ -56,9 +152,23 @@ func (c *crashStore) after() {
 
 func (c *crashStore) Get(k kvstore.Key) (kvstore.Value, error) {
 	if c.fail() {
+		c.note('g')
+
 		return nil, errInjected
 	}
+	c.maybeClose()
 	v, err := c.KVStore.Get(k)
+	if err != nil && !ierrors.Is(err, kvstore.ErrKeyNotFound) {
+		c.note('g')
+	} else {
+		c.note('G')
+		if c.onRead != nil {
+			c.onRead(k, v, err)
+		}
+	}
+	if c.wrapNF && err != nil && ierrors.Is(err, kvstore.ErrKeyNotFound) {
+		err = ierrors.Wrap(err, "sequence key")
+	}
 	c.after()
 
 	return v, err
@@ -66,22 +176,48 @@ func (c *crashStore) Get(k kvstore.Key) (kvstore.Value, error) {
 
 func (c *crashStore) Set(k kvstore.Key, v kvstore.Value) error {
 	if c.fail() {
+		c.note('s')
+
 		return errInjected
 	}
 	if c.slowSet.Load() {
-		time.Sleep(40 * time.Microsecond)
+		// widen the window around the store write: let the other goroutines run (no timer: a sleep costs 0.1..1 ms on a
+		// loaded machine and dominated the run time)
+		for i := 0; i < 30; i++ {
+			runtime.Gosched()
+		}
 	}
+	c.maybeClose()
 	err := c.KVStore.Set(k, v)
+	if err != nil {
+		c.note('s')
+	} else {
+		c.note('S')
+		if c.onAck != nil {
+			c.onAck(k, v)
+		}
+	}
 	c.after()
 
 	return err
 }
 
 type world struct {
-	root     kvstore.KVStore // the database
-	parent   kvstore.KVStore // a non-root view of it; the sequence lives in a sub-view, siblings are opened next to it
-	view     kvstore.KVStore // the handle the Sequence uses (under the crash wrapper)
-	cs       *crashStore
+	root    kvstore.KVStore // the database
+	parent  kvstore.KVStore // a non-root view of it; the sequence lives in a sub-view, siblings are opened next to it
+	view    kvstore.KVStore // the handle the Sequence uses (under the crash wrapper)
+	cs      *crashStore
+	backend string // view (default) | root | flush
+	dsk     *disk
+	faultBy string // how fnext/frelease make a store call fail: "" = injected error on top of the wrappers, "close" = the database below them is closed
+	*lane           // the lane the current request works on
+	lanes   [2]*lane
+}
+
+// lane: one sequence key with its live object and its oracle state. Lane 1 (`k2 <op>`) is a second sequence under another
+// key of the same store handle: the two must not disturb each other.
+type lane struct {
+	key      []byte
 	seq      *kvstore.Sequence
 	interval uint64
 	// oracle state
@@ -95,6 +231,7 @@ type world struct {
 }
 
 var key = []byte("seq")
+var key2 = []byte("seq2")
 
 var (
 	parentRealm = []byte("store")
@@ -105,7 +242,7 @@ var (
 // The sequence lives in a sub-view of a non-root view of the database (realm "store" ++ "s"); sibling sub-views
 // ("store" ++ x) are opened and written while it is in use, and another key of the same view is read by foreign
 // goroutines: none of that may disturb the numbers.
-func newWorld() *world {
+func newWorld(r *hx.Run) *world {
 	root := mapdb.NewMapDB()
 	parent, err := root.WithExtendedRealm(parentRealm)
 	if err != nil {
@@ -119,12 +256,97 @@ func newWorld() *world {
 		panic(err)
 	}
 
-	return &world{root: root, parent: parent, view: view, cs: &crashStore{KVStore: view, armed: -1}, clean: true}
+	w := &world{root: root, parent: parent, view: view, cs: &crashStore{armed: -1, closeAt: -1}}
+	w.lanes = [2]*lane{{key: key, clean: true}, {key: key2, clean: true}}
+	w.lane = w.lanes[0]
+	w.setBackend("view")
+	// the obligation the Sequence has on the store layer, tested on every wrapper stack, at every store call: a write that
+	// answered nil is in the database (it survives a restart), a read answers what the database holds
+	w.cs.onAck = func(k, v []byte) {
+		raw, err := w.rawGet(k)
+		if err != nil || string(raw) != string(v) {
+			r.Fail("store-contract", fmt.Sprintf("Set(%x, %x) answered nil but the database holds %x (%v): the write would not survive a restart", k, v, raw, err),
+				map[string]string{"oracle": "acked-write-lost", "after": w.backend})
+		}
+	}
+	w.cs.onRead = func(k, v []byte, e error) {
+		raw, err := w.rawGet(k)
+		if (e == nil) != (err == nil) || string(raw) != string(v) {
+			r.Fail("store-contract", fmt.Sprintf("Get(%x) answered %x, %v but the database holds %x (%v)", k, v, e, raw, err),
+				map[string]string{"oracle": "stale-read", "after": w.backend})
+		}
+	}
+
+	return w
+}
+
+// rawMark reads the stored bytes through an independent path built from literal realm bytes.
+func (w *world) rawMark() ([]byte, error) { return w.rawGet(w.key) }
+
+// rawGet reads the database itself (not through the closable disk layer or any wrapper).
+func (w *world) rawGet(k []byte) ([]byte, error) {
+	full := append(append(append([]byte{}, parentRealm...), seqRealm...), k...)
+	if w.backend == "root" {
+		full = append([]byte{}, k...)
+	}
+
+	return w.root.Get(full)
+}
+
+func fieldStr(v reflect.Value, name string) string {
+	f := v.FieldByName(name)
+	if !f.IsValid() || !f.CanUint() {
+		return "?"
+	}
+
+	return strconv.FormatUint(f.Uint(), 10)
+}
+
+// obs: what is observed after every sequential request besides the answer: the private fields of the live object and the
+// raw stored bytes. The crash-safety invariants are judged here on the implementation, independently of Lean: a lease held
+// in memory is covered by the stored mark, and the stored mark is above every number handed out.
+func (w *world) obs(r *hx.Run, after string) string {
+	o := "-"
+	raw, err := w.rawMark()
+	m := "none"
+	var mv uint64
+	present := false
+	switch {
+	case err == nil && len(raw) == 8:
+		m, mv, present = hex.EncodeToString(raw), binary.BigEndian.Uint64(raw), true
+	case err == nil:
+		m = "x" + hex.EncodeToString(raw)
+		r.Fail("store-format", fmt.Sprintf("the stored mark is %d bytes long: %x", len(raw), raw), map[string]string{"oracle": "mark-format", "after": after})
+	case !ierrors.Is(err, kvstore.ErrKeyNotFound):
+		m = "err"
+	}
+	if w.seq != nil {
+		v := reflect.ValueOf(w.seq).Elem()
+		o = fieldStr(v, "interval") + "/" + fieldStr(v, "next") + "/" + fieldStr(v, "reserved")
+		nx, e1 := strconv.ParseUint(fieldStr(v, "next"), 10, 64)
+		rs, e2 := strconv.ParseUint(fieldStr(v, "reserved"), 10, 64)
+		if e1 == nil && e2 == nil && nx < rs {
+			if !present || rs > mv {
+				r.Fail("crash-safe", fmt.Sprintf("the object can serve [%d,%d) from memory but the store holds %s", nx, rs, m),
+					map[string]string{"oracle": "uncovered-lease", "after": after})
+			}
+			if w.have && nx <= w.last {
+				r.Fail("strictly-increasing", fmt.Sprintf("the object will hand out %d next although %d was handed out", nx, w.last),
+					map[string]string{"oracle": "reuse-pending", "after": after})
+			}
+		}
+	}
+	if w.have && (!present || mv <= w.last) {
+		r.Fail("crash-safe", fmt.Sprintf("%d was handed out but the store holds %s: a restart would hand it out again", w.last, m),
+			map[string]string{"oracle": "mark-behind", "after": after})
+	}
+
+	return "o=" + o + " m=" + m
 }
 
 // storedMark reads the mark through an independent view built from literal realm bytes.
 func (w *world) storedMark() (uint64, bool, error) {
-	v, err := w.root.Get(append(append(append([]byte{}, parentRealm...), seqRealm...), key...))
+	v, err := w.rawMark()
 	if ierrors.Is(err, kvstore.ErrKeyNotFound) {
 		return 0, false, nil
 	}
@@ -184,16 +406,93 @@ func (w *world) abandon(cleanly bool) {
 	}
 }
 
+// isSeqOp mirrors parseOp of the Lean model: the requests that are operations of the sequential machine.
+func isSeqOp(f []string) bool {
+	switch strings.Join(f, " ") {
+	case "next", "release", "crash idle", "crash read", "crash write", "crash relwrite", "fnext get", "fnext set", "frelease":
+		return true
+	}
+	if len(f) == 2 && f[0] == "new" {
+		_, err := strconv.ParseUint(f[1], 10, 64)
+
+		return err == nil
+	}
+
+	return false
+}
+
+// exec runs one request and appends what is observed besides the answer: the object's private fields and the raw stored
+// bytes after it, and (for operations of the sequential machine) the store calls it made.
 func (w *world) exec(r *hx.Run, op string) string {
 	f := strings.Fields(op)
+	if f[0] == "k2" && len(f) > 1 {
+		w.lane = w.lanes[1]
+		defer func() { w.lane = w.lanes[0] }()
+		f = f[1:]
+		op = strings.Join(f, " ")
+	}
+	if f[0] == "parrel" {
+		return w.execCore(r, op)
+	}
+	isOp := isSeqOp(f)
+	w.cs.trace = w.cs.trace[:0]
+	w.cs.tracing = isOp
+	ans := w.execCore(r, op)
+	w.cs.tracing = false
+	out := ans + " | " + w.obs(r, f[0])
+	if isOp {
+		out += " c=" + string(w.cs.trace)
+	}
+
+	return out
+}
+
+func (w *world) setBackend(b string) {
+	switch b {
+	case "root":
+		w.dsk = &disk{KVStore: w.root}
+		w.cs.KVStore = w.dsk
+	case "flush":
+		w.dsk = &disk{KVStore: w.view}
+		w.cs.KVStore = flushkv.New(w.dsk)
+	default:
+		b = "view"
+		w.dsk = &disk{KVStore: w.view}
+		w.cs.KVStore = w.dsk
+	}
+	w.cs.dsk = w.dsk
+	w.backend = b
+	if err := w.cs.KVStore.Set(otherKey, make([]byte, 8)); err != nil {
+		panic(err)
+	}
+}
+
+func (w *world) execCore(r *hx.Run, op string) string {
+	f := strings.Fields(op)
 	switch f[0] {
+	case "cfg":
+		// harness configuration, before the first `new` of a case; invisible to the model
+		switch {
+		case len(f) == 2 && f[1] == "wrapnf":
+			w.cs.wrapNF = true
+		case len(f) == 3 && f[1] == "backend":
+			w.setBackend(f[2])
+		case len(f) == 3 && f[1] == "fault":
+			w.faultBy = f[2]
+		case len(f) == 3 && f[1] == "key":
+			w.lanes[0].key = hx.UnHex(f[2])
+		case len(f) == 3 && f[1] == "key2":
+			w.lanes[1].key = hx.UnHex(f[2])
+		}
+
+		return "ok"
 	case "new":
 		iv, _ := strconv.ParseUint(f[1], 10, 64)
 		if w.seq != nil {
 			// a released object that is replaced wastes nothing; an unreleased one wastes up to its interval
 			w.abandon(true)
 		}
-		s, err := kvstore.NewSequence(w.cs, key, iv)
+		s, err := kvstore.NewSequence(w.cs, w.key, iv)
 		if err != nil {
 			return "err"
 		}
@@ -223,7 +522,7 @@ func (w *world) exec(r *hx.Run, op string) string {
 		if err := sv.Set(key, []byte{0, 0, 0, 0, 0, 0, 0, 1}); err != nil {
 			return "err"
 		}
-		if v, err := w.view.Get(otherKey); err != nil || len(v) != 8 {
+		if v, err := w.cs.KVStore.Get(otherKey); err != nil || len(v) != 8 {
 			r.Fail("store-intact", fmt.Sprintf("the other key of the sequence's view reads %x, %v after a sibling view was opened", v, err),
 				map[string]string{"oracle": "view-disturbed", "after": "sibling"})
 		}
@@ -307,11 +606,33 @@ func (w *world) exec(r *hx.Run, op string) string {
 		}
 		w.trail = append(w.trail, strings.Join(f, "-"))
 		w.cs.calls = 0
-		if f[0] == "frelease" {
-			w.cs.failAt = 1
-			err := w.seq.Release()
+		byClose := w.faultBy == "close"
+		refused0 := w.dsk.refused.Load()
+		// arm: the k-th store call of the operation fails (k = 1, 2) - by the injected error, or because the database was
+		// shut down after k-1 calls; disarm: the database is opened again, report whether a store call failed
+		arm := func(k int) {
+			if byClose {
+				w.cs.closeAt = k - 1
+			} else {
+				w.cs.failAt = k
+			}
+		}
+		disarm := func() bool {
+			if byClose {
+				w.cs.closeAt = -1
+				w.dsk.closed.Store(false)
+
+				return w.dsk.refused.Load() != refused0
+			}
 			fired := w.cs.failAt == 0
 			w.cs.failAt = 0
+
+			return fired
+		}
+		if f[0] == "frelease" {
+			arm(1)
+			err := w.seq.Release()
+			fired := disarm()
 			if err != nil {
 				if !fired {
 					r.Fail("error-faithful", "Release returned an error although no store call failed", map[string]string{"oracle": "spurious-error", "after": "frelease"})
@@ -326,13 +647,13 @@ func (w *world) exec(r *hx.Run, op string) string {
 
 			return "ok"
 		}
-		w.cs.failAt = 1
 		if f[1] == "set" {
-			w.cs.failAt = 2
+			arm(2)
+		} else {
+			arm(1)
 		}
 		n, err := w.seq.Next()
-		fired := w.cs.failAt == 0
-		w.cs.failAt = 0
+		fired := disarm()
 		if err != nil {
 			if !fired {
 				w.checkExhausted(r, err, "fnext")
@@ -418,7 +739,7 @@ func (w *world) exec(r *hx.Run, op string) string {
 			}
 		}
 		// abandon and restart: the fresh object must continue above everything handed out
-		fresh, err := kvstore.NewSequence(w.cs, key, 3)
+		fresh, err := kvstore.NewSequence(w.cs, w.key, 3)
 		if err == nil {
 			for i := 0; i < 8; i++ {
 				n, err := fresh.Next()
@@ -465,13 +786,13 @@ func (w *world) exec(r *hx.Run, op string) string {
 						default:
 						}
 						if i == 0 {
-							if v, err := w.view.Get(otherKey); err != nil || len(v) != 8 || binary.BigEndian.Uint64(v) != 0 {
+							if v, err := w.cs.KVStore.Get(otherKey); err != nil || len(v) != 8 || binary.BigEndian.Uint64(v) != 0 {
 								r.Fail("store-intact", fmt.Sprintf("foreign reader got %x, %v for the other key", v, err),
 									map[string]string{"oracle": "view-disturbed", "after": "parfr"})
 
 								return
 							}
-						} else if ok, err := w.view.Has(otherKey); err != nil || !ok {
+						} else if ok, err := w.cs.KVStore.Has(otherKey); err != nil || !ok {
 							r.Fail("store-intact", fmt.Sprintf("foreign reader: Has(other key) = %v, %v", ok, err),
 								map[string]string{"oracle": "view-disturbed", "after": "parfr"})
 
@@ -624,7 +945,7 @@ func (w *world) execHist(r *hx.Run, op string) (string, string) {
 	oldIv := w.interval
 	w.seq = nil
 	var freshNums []uint64
-	fresh, err := kvstore.NewSequence(w.cs, key, iv2)
+	fresh, err := kvstore.NewSequence(w.cs, w.key, iv2)
 	if err == nil {
 		for i := 0; i < m; i++ {
 			n, err := fresh.Next()
@@ -697,7 +1018,7 @@ func runCrashing(f func()) (crashed bool) {
 // reports exhaustion), no concurrent requests.
 func genExtreme(rng *hx.Rng, n int) []string {
 	intervals := []uint64{1, 5, 1 << 32, 1 << 62, 1 << 63, 1<<63 + 1, ^uint64(0) - 1, ^uint64(0), ^uint64(0)}
-	ops := []string{fmt.Sprintf("new %d", hx.Pick(rng, intervals))}
+	ops := append(genCfg(rng), fmt.Sprintf("new %d", hx.Pick(rng, intervals)))
 	for i := 0; i < n; i++ {
 		switch x := rng.Intn(100); {
 		case x < 40:
@@ -730,35 +1051,74 @@ func genExtreme(rng *hx.Rng, n int) []string {
 	return ops
 }
 
+// genCfg: the harness configuration of a case (invisible to the model): the sequence key(s), the store the handle is
+// made of, and whether a missing key is reported by an error that only wraps ErrKeyNotFound.
+func genCfg(rng *hx.Rng) []string {
+	var ops []string
+	if rng.Chance(1, 3) {
+		ops = append(ops, "cfg wrapnf")
+	}
+	if rng.Chance(1, 3) {
+		ops = append(ops, "cfg backend "+hx.Pick(rng, []string{"root", "flush"}))
+	}
+	if rng.Chance(1, 2) {
+		// store errors are not injected on top of the wrappers: the database below them is shut down at that point of the
+		// call and opened again afterwards
+		ops = append(ops, "cfg fault close")
+	}
+	if rng.Chance(1, 4) {
+		// short, binary, long, equal to the realm bytes, prefix-related to the second lane's key
+		keys := []string{"73", "00", "ff", "ffffffffffffffffff", "73746f7265", "7365", "736571", strings.Repeat("ab", 40)}
+		ops = append(ops, "cfg key "+hx.Pick(rng, keys))
+		if rng.Chance(1, 2) {
+			ops = append(ops, "cfg key2 "+hx.Pick(rng, []string{"7366", "73657132", "0000", "ff00", "73746f726573"}))
+		}
+	}
+	return ops
+}
+
 func genCase(rng *hx.Rng, n int) []string {
 	intervals := []int{1, 1, 2, 3, 5, 1 << 32}
-	ops := []string{fmt.Sprintf("new %d", hx.Pick(rng, intervals))}
+	ops := append(genCfg(rng), fmt.Sprintf("new %d", hx.Pick(rng, intervals)))
+	// a quarter of the cases runs a second sequence under another key of the same store handle (`k2 <op>`)
+	twoLanes := rng.Chance(1, 4)
+	if twoLanes {
+		ops = append(ops, fmt.Sprintf("k2 new %d", hx.Pick(rng, intervals)))
+	}
+	emit := func(unit ...string) {
+		if twoLanes && rng.Chance(1, 3) {
+			for i := range unit {
+				unit[i] = "k2 " + unit[i]
+			}
+		}
+		ops = append(ops, unit...)
+	}
 	for i := 0; i < n; i++ {
 		switch x := rng.Intn(100); {
 		case x < 45:
-			ops = append(ops, "next")
+			emit("next")
 		case x < 55:
-			ops = append(ops, "release")
+			emit("release")
 		case x < 65:
-			ops = append(ops, fmt.Sprintf("new %d", hx.Pick(rng, intervals)))
+			emit(fmt.Sprintf("new %d", hx.Pick(rng, intervals)))
 		case x < 70:
-			ops = append(ops, "crash idle", fmt.Sprintf("new %d", hx.Pick(rng, intervals)))
+			emit("crash idle", fmt.Sprintf("new %d", hx.Pick(rng, intervals)))
 		case x < 77:
-			ops = append(ops, "crash read", fmt.Sprintf("new %d", hx.Pick(rng, intervals)))
+			emit("crash read", fmt.Sprintf("new %d", hx.Pick(rng, intervals)))
 		case x < 86:
-			ops = append(ops, "crash write", fmt.Sprintf("new %d", hx.Pick(rng, intervals)))
+			emit("crash write", fmt.Sprintf("new %d", hx.Pick(rng, intervals)))
 		case x < 91:
-			ops = append(ops, "crash relwrite", fmt.Sprintf("new %d", hx.Pick(rng, intervals)))
+			emit("crash relwrite", fmt.Sprintf("new %d", hx.Pick(rng, intervals)))
 		case x < 93:
-			ops = append(ops, "mark")
+			emit("mark")
 		case x < 94:
 			ops = append(ops, "sibling "+hx.Pick(rng, []string{"t", "s2", "r", "u"}))
 		case x < 95:
-			ops = append(ops, "fnext get")
+			emit("fnext get")
 		case x < 97:
-			ops = append(ops, "fnext set")
+			emit("fnext set")
 		case x < 98:
-			ops = append(ops, "frelease")
+			emit("frelease")
 		default:
 			ops = append(ops, fmt.Sprintf("par %d %d", rng.Range(2, 4), rng.Range(1, 5)))
 		}
@@ -777,7 +1137,7 @@ func genCase(rng *hx.Rng, n int) []string {
 
 func runCase(r *hx.Run, sub uint64, ops []string) {
 	r.Case(sub)
-	w := newWorld()
+	w := newWorld(r)
 	crashes, nums := 0, 0
 	for _, op := range ops {
 		var ans string
@@ -787,13 +1147,24 @@ func runCase(r *hx.Run, sub uint64, ops []string) {
 			ans = w.exec(r, op)
 		}
 		r.Line(op, ans)
-		k := strings.Fields(op)[0]
-		if k == "crash" {
-			k = op
+		bare := strings.TrimPrefix(op, "k2 ")
+		if bare != op {
+			r.Count("lane:k2")
+		}
+		k := strings.Fields(bare)[0]
+		if k == "crash" || k == "cfg" {
+			k = strings.Join(strings.Fields(bare)[:2], " ")
 		}
 		r.Count("op:" + k)
-		r.Count("ans:" + strings.Fields(ans)[0])
-		if strings.HasPrefix(op, "crash") || strings.HasPrefix(op, "new") {
+		if k == "mark" {
+			r.Count("ans:mark")
+		} else {
+			r.Count("ans:" + strings.Fields(ans)[0])
+		}
+		if i := strings.Index(ans, " c="); i >= 0 {
+			r.Count("calls:" + ans[i+3:])
+		}
+		if strings.HasPrefix(bare, "crash") || strings.HasPrefix(bare, "new") {
 			crashes++
 		}
 		if strings.HasPrefix(ans, "num") {
@@ -833,6 +1204,13 @@ func main() {
 		{"new 9223372036854775808", "next", "crash idle", "new 9223372036854775808", "next", "crash idle", "new 9223372036854775808", "next", "next", "mark"},
 		{"new 18446744073709551615", "next", "crash idle", "new 5", "next", "next", "crash write", "release", "fnext set", "mark"},
 		{"new 9223372036854775807", "next", "crash idle", "new 1", "next", "next", "next", "crash write", "new 9223372036854775807", "next", "next"},
+		// the database is shut down between the read and the write of a lease renewal / before the write of Release, under
+		// the flushing wrapper and under the plain views (seeded change C07-r5-3: flushkv answered nil for such a write)
+		{"cfg backend flush", "cfg fault close", "new 5", "next", "next", "next", "next", "next", "fnext set", "crash idle", "new 5", "next", "mark"},
+		{"cfg backend flush", "cfg fault close", "new 3", "next", "frelease", "fnext get", "next", "next", "fnext set", "next", "release", "new 2", "next"},
+		{"cfg backend root", "cfg fault close", "cfg wrapnf", "new 2", "fnext get", "fnext set", "next", "frelease", "crash relwrite", "new 2", "next"},
+		// two sequences under prefix-related keys of one store
+		{"cfg key 7365", "cfg key2 736571", "new 2", "k2 new 3", "next", "k2 next", "k2 next", "next", "next", "k2 crash write", "k2 new 1", "k2 next", "crash idle", "new 1", "next", "mark", "k2 mark"},
 		// the sequence's view has siblings opened while it is in use; foreign readers share its handle
 		{"new 2", "next", "sibling t", "next", "next", "sibling s2", "crash idle", "new 3", "next", "mark"},
 		{"new 1", "next", "parfr 4 1500", "next", "mark"},
